@@ -708,6 +708,8 @@ def child_handle(case: Any) -> Any:
     op = case.get("op")
     if op == "validate":
         return modelops.op_validate(case)
+    if op == "isolation":
+        return modelops.op_isolation(case)
     if op == "drive":
         d = DRIVERS.get(case["site"])
         if d is None:
